@@ -39,7 +39,10 @@ CHECKS = {
     "C09": {"level": "fault_enumeration", "parts": [P("crash-and-faults", "./lifecycle", "^TestC09Crash$", shards={"quick": 1, "thorough": 16}, budget={"quick": 240, "thorough": 1200}, gomaxprocs=1, overlay=TOK_OV),
                       P("tokens-file", "./lifecycle", "^TestC09TokensFile$", overlay=TOK_OV)]},
     "C10": {"parts": [P("dobatch", "./c10", "^TestC10$", shards={"quick": 16, "thorough": 16}, budget={"quick": 200, "thorough": 1200}, gomaxprocs=1,
-                      overlay=[{"file": "ring/batch.go", "rewrite": ['"sync"', '"go.uber.org/atomic"']}])]},
+                      overlay=[{"file": "ring/batch.go", "rewrite": ['"sync"', '"go.uber.org/atomic"'], "add_imports": ['"verif/shim/maporder"'],
+                                # DoBatch spawns one goroutine per entry of a map: in sorted order here, so that a goroutine that parks
+                                # before the harness callback has named it is still the same one in every replay
+                                "subst": [["\tfor _, i := range instances {\n\t\ti := i\n", "\tfor _, vk := range maporder.Sorted(instances) {\n\t\ti := instances[vk]\n", "optional"]]}])]},
     "C17": {"parts": [P("single-service", "./c17", "^TestC17Single$", shards={"quick": 8, "thorough": 8}, budget={"quick": 200, "thorough": 1200}, gomaxprocs=1, overlay=SVC_OV),
                       P("manager", "./c17", "^TestC17Manager$", shards={"quick": 6, "thorough": 6}, budget={"quick": 200, "thorough": 1200}, gomaxprocs=1, overlay=SVC_OV),
                       P("idle-timer", "./c17", "^TestC17Timer$", shards={"quick": 2, "thorough": 2}, budget={"quick": 200, "thorough": 900}, gomaxprocs=1, overlay=SVC_OV)]},
